@@ -13,7 +13,11 @@ use text_utils::data::{PostprocessingConfig, PreprocessingConfig, TrainItem, Tra
 use text_utils::tokenization::{ByteGroups, ByteTokenizerConfig, GroupAggregation, SpecialConfig, TokenizeConfig, TokenizerConfig};
 
 fn tmp() -> String {
-    let d = format!("/verif/work/loader-{}", std::process::id());
+    // inside the run directory of this shard (removed by ./check with it); replays fall back to /verif/work
+    let d = match std::env::var("TU_HARNESS_TMP") {
+        Ok(root) => format!("{root}/loader"),
+        Err(_) => format!("/verif/work/loader-{}", std::process::id()),
+    };
     std::fs::create_dir_all(&d).ok();
     d
 }
